@@ -636,6 +636,7 @@ func registerNatives(in *Interp) {
 	registerStrNatives(in)
 	registerClassAdNatives(in)
 	registerTimeNatives(in)
+	registerPathNatives(in)
 }
 
 // bufferAppend implements the write side of bytes.Buffer on its real fields.
